@@ -31,6 +31,10 @@ pub struct Case {
     pub kind: Kind,
 }
 
+fn mv_dbg<Fld: ark_ff::PrimeField>(v: &Variable<Fld>) -> String {
+    format!("{:?}", crate::interp::cur::mv_of(v))
+}
+
 fn rand_ops(r: &mut R, len: usize, nh: &mut usize, p2: bool, allow_closure: bool, top: bool) -> Vec<Op> {
     let mut ops = vec![];
     let mut nchal = 0usize;
@@ -240,16 +244,37 @@ fn run_case<G: AffineRepr>(env: &Env<G>, c: &Case) -> CaseOut {
             if before != mid {
                 o.violate("missing-assignment-state", "a failed allocation changed the gate count", json!({}));
             }
-            // the failed calls must not have disturbed the allocator
+            // the failed calls must not have disturbed the allocator; an absent assignment is an
+            // error at every position of a pair (first wire, second wire) and for a whole multiplier
             let x = p.allocate(Some(F::<G>::from(3u64)));
+            let r_second = p.allocate(None); // second wire of the pair opened by x
+            let len_after_second = p.multipliers_len();
             let y = p.allocate(Some(F::<G>::from(4u64)));
             let r3 = p.allocate(None);
+            let rm = p.allocate_multiplier(None);
             let z = p.allocate(Some(F::<G>::from(5u64)));
-            let good = matches!(x, Ok(Variable::MultiplierLeft(0))) && matches!(y, Ok(Variable::MultiplierRight(0))) && matches!(r3, Err(R1CSError::MissingAssignment)) && matches!(z, Ok(Variable::MultiplierLeft(1)));
+            let (_, _, om) = p.allocate_multiplier(Some((F::<G>::from(2u64), F::<G>::from(2u64)))).unwrap_or((Variable::One(), Variable::One(), Variable::One()));
+            let r4 = p.allocate(None); // second wire again, after other gates were created
+            let w = p.allocate(Some(F::<G>::from(6u64)));
+            if !matches!(r_second, Err(R1CSError::MissingAssignment)) {
+                o.violate("missing-assignment-second-wire", format!("allocate(None) for the second wire of an open gate returned {:?} instead of MissingAssignment", r_second.as_ref().map(mv_dbg).map_err(err_name)), json!({}));
+            }
+            if len_after_second != 1 {
+                o.violate("missing-assignment-state", "a failed allocation changed the gate count", json!({}));
+            }
+            let good = matches!(x, Ok(Variable::MultiplierLeft(0)))
+                && matches!(y, Ok(Variable::MultiplierRight(0)))
+                && matches!(r3, Err(R1CSError::MissingAssignment))
+                && matches!(rm, Err(R1CSError::MissingAssignment))
+                && matches!(z, Ok(Variable::MultiplierLeft(1)))
+                && matches!(om, Variable::MultiplierOutput(2))
+                && matches!(r4, Err(R1CSError::MissingAssignment))
+                && matches!(w, Ok(Variable::MultiplierRight(1)))
+                && p.multipliers_len() == 3;
             if !good {
-                o.violate("missing-assignment-wrong-variable", "after a failed allocation the prover returned a wrong variable", json!({}));
+                o.violate("missing-assignment-wrong-variable", format!("after failed allocations the prover returned wrong variables: {:?} {:?} {:?} {:?} len={}", x.as_ref().map(mv_dbg).map_err(err_name), y.as_ref().map(mv_dbg).map_err(err_name), z.as_ref().map(mv_dbg).map_err(err_name), w.as_ref().map(mv_dbg).map_err(err_name), p.multipliers_len()), json!({}));
             } else {
-                o.count("MissingAssignment reported; allocator undisturbed", 1);
+                o.count("MissingAssignment reported at every position; allocator undisturbed", 1);
             }
             o.sig(format!("{}|missing", env.curve));
         }
